@@ -24,7 +24,7 @@ for rid in args:
     print(f'{rid}: instances={res.instances} findings={len(res.findings)} counts={res.counts}')
     for f in res.findings:
         print(f'   FAIL {f.construct}: {f.what[:300]} [{f.where}]')
-    for n in res.notes[:10]:
+    for n in res.notes[:60]:
         print('   note', n)
     if verbose:
         for s in res.facts: print('   ok', s[:200])
